@@ -9,6 +9,13 @@
 // by one.  Observables: the ordered OnFilteredBlockConnected /
 // OnFilteredBlockDisconnected callbacks with the attached transactions, the
 // return of Update calls, and where the goroutine blocks next.
+//
+// The waiting phase of rescan() (rescanState.waitForBlocks, twice) is part of
+// every trace: its BestBlock and Subscribe calls are gated like all others,
+// IsCurrent() answers a flag the scheduler flips ("current" items), and Update
+// calls are issued while the goroutine waits there, in every position relative
+// to the block notifications of the wait.  "quit" items close the quit
+// channel.
 package main
 
 import (
@@ -68,7 +75,7 @@ type Cb struct {
 
 // Item is one scheduler step and what was observed after it.
 type Item struct {
-	Kind string `json:"kind"` // extend rollback start update reply deliver retry
+	Kind string `json:"kind"` // extend rollback start update reply deliver retry current quit
 	// extend
 	Time int64 `json:"time,omitempty"`
 	Txs  []int `json:"txs,omitempty"`
@@ -81,12 +88,16 @@ type Item struct {
 	Rewind int64   `json:"rewind,omitempty"`
 	// reply
 	Res string `json:"res,omitempty"` // ok fail notfound
+	// current
+	Cur bool `json:"cur,omitempty"`
 	// observations
 	Cbs  []Cb   `json:"cbs,omitempty"`
 	Recv bool   `json:"recv,omitempty"`
-	Blk  string `json:"blk,omitempty"` // idle select done dead call
+	Blk  string `json:"blk,omitempty"` // idle select done dead exit call
 	BK   int64  `json:"bk,omitempty"`
 	BA   int64  `json:"ba,omitempty"`
+	// annotation (not compared): the rescan is still in waitForBlocks after this step
+	InWait bool `json:"in_wait,omitempty"`
 }
 
 // History is one case.
@@ -200,9 +211,11 @@ type kase struct {
 	// gate
 	gateCh      chan *call
 	subDone     chan subInfo
-	started     int32 // set after the two BestBlock calls of waitForBlocks
-	setupBest   int
+	started     int32 // set by the first BestBlock call (rescan() has begun; newRescanState is not gated)
 	passthrough int32
+	isCur       int32 // what IsCurrent() answers
+	quitClosed  bool
+	nBest       int // BestBlock calls seen by the scheduler; the first two belong to waitForBlocks
 
 	// rescan
 	rescan *neutrino.Rescan
@@ -237,7 +250,7 @@ func newKase(h *History) *kase {
 	k := &kase{h: h, dead: make(chan struct{}), byHash: map[chainhash.Hash]*blk{},
 		txTok: map[chainhash.Hash]int64{}, srcCh: make(chan blockntfns.BlockNtfn),
 		gateCh: make(chan *call), subDone: make(chan subInfo, 64), quit: make(chan struct{}),
-		mode: "idle"}
+		mode: "idle", isCur: 1}
 	// pool transactions
 	for i, p := range h.Pool {
 		tx := wire.NewMsgTx(2)
@@ -405,18 +418,15 @@ func (k *kase) gate(kind int, arg int64) string {
 
 func (k *kase) ChainParams() chaincfg.Params { return params }
 
-func (k *kase) IsCurrent() bool { return true }
+// IsCurrent is read by the predicate of the second waitForBlocks right after
+// BestBlock returns / a notification is taken; the flag only changes while the
+// goroutine is blocked.
+func (k *kase) IsCurrent() bool { return atomic.LoadInt32(&k.isCur) == 1 }
 
 func (k *kase) BestBlock() (*headerfs.BlockStamp, error) {
-	if atomic.LoadInt32(&k.started) == 0 {
-		// the two calls of waitForBlocks (set-up, not part of the trace)
-		k.setupBest++
-		if k.setupBest == 2 {
-			defer atomic.StoreInt32(&k.started, 1)
-		}
-	} else {
-		k.gate(1, 0)
-	}
+	// the first call is the one of the first waitForBlocks: rescan() has begun
+	atomic.StoreInt32(&k.started, 1)
+	k.gate(1, 0)
 	k.mu.Lock()
 	defer k.mu.Unlock()
 	t := k.chain[len(k.chain)-1]
@@ -677,7 +687,10 @@ func (k *kase) sync() {
 		var pd chan error
 		if k.pendDone != nil {
 			pd = k.pendDone
-		} else if k.active != nil {
+		} else if k.active != nil && !k.quitClosed {
+			// (with the quit channel closed a goroutine that reaches
+			// its select must leave; no probe, it could be taken
+			// instead of the quit case)
 			probeCh = k.active.ch
 		}
 		select {
@@ -687,9 +700,7 @@ func (k *kase) sync() {
 		case cl := <-k.gateCh:
 			k.held = cl
 			k.settlePending()
-			if cl.kind == 1 {
-				k.mode = "catchup"
-			}
+			k.noteCall(cl)
 			return
 		case err := <-k.errCh:
 			k.exited, k.exitErr = true, err
@@ -707,6 +718,22 @@ func (k *kase) sync() {
 		}
 	}
 }
+
+// noteCall keeps the scheduler's picture of the phase: the first two BestBlock
+// calls are those of the two waitForBlocks, every later one is the catch-up
+// branch of rescanLoop.
+func (k *kase) noteCall(cl *call) {
+	if cl.kind == 1 {
+		k.nBest++
+		if k.nBest > 2 {
+			k.mode = "catchup"
+		} else {
+			k.mode = "wait"
+		}
+	}
+}
+
+func (k *kase) inWait() bool { return k.rescan != nil && k.nBest <= 2 }
 
 func (k *kase) waitFifo(w *wrap, n int) {
 	deadline := time.After(waitLimit)
@@ -777,7 +804,11 @@ func (k *kase) applicable(kind string) bool {
 	case "start":
 		return k.rescan == nil
 	case "update":
-		return k.rescan != nil && !k.exited && k.pendDone == nil
+		return k.rescan != nil && !k.exited && k.pendDone == nil && !k.quitClosed
+	case "current":
+		return true
+	case "quit":
+		return !k.quitClosed && !k.exited && k.pendDone == nil
 	case "reply":
 		return k.held != nil
 	case "deliver":
@@ -847,7 +878,7 @@ func (k *kase) perform(it *Item) {
 		k.rescan = neutrino.NewRescan(k, opts...)
 		k.errCh = k.rescan.Start()
 		k.toldH = int64(sh)
-		k.mode = "catchup"
+		k.mode = "wait"
 		k.sync()
 	case "update":
 		var uo []neutrino.UpdateOption
@@ -906,7 +937,11 @@ func (k *kase) perform(it *Item) {
 				if !si.err {
 					k.active = si.w
 					k.waitFifo(si.w, si.backlog)
-					k.mode = "current"
+					if k.inWait() {
+						k.mode = "wait"
+					} else {
+						k.mode = "current"
+					}
 					k.armedEst = false
 				}
 			case <-time.After(waitLimit):
@@ -934,13 +969,24 @@ func (k *kase) perform(it *Item) {
 		select {
 		case cl := <-k.gateCh:
 			k.held, k.quiescent = cl, false
-			if cl.kind == 1 {
-				k.mode = "catchup"
-			}
+			k.noteCall(cl)
 		case err := <-k.errCh:
 			k.exited, k.exitErr, k.quiescent = true, err, false
 		case <-time.After(400 * time.Millisecond):
 			// timer fired on an empty queue (or was not armed)
+		}
+	case "current":
+		v := int32(0)
+		if it.Cur {
+			v = 1
+		}
+		atomic.StoreInt32(&k.isCur, v)
+	case "quit":
+		close(k.quit)
+		k.quitClosed = true
+		if k.rescan != nil && k.held == nil && !k.exited {
+			// the goroutine is in a select: it must leave
+			k.sync()
 		}
 	}
 	// observations
@@ -955,12 +1001,15 @@ func (k *kase) perform(it *Item) {
 		}
 	}
 	it.Recv = k.recv
+	it.InWait = k.inWait() && !k.exited
 	it.BK, it.BA = 0, 0
 	switch {
 	case k.rescan == nil:
 		it.Blk = "idle"
 	case k.exited && k.exitErr == nil && k.failure == "":
 		it.Blk = "done"
+	case k.exited && k.exitErr == neutrino.ErrRescanExit && k.failure == "":
+		it.Blk = "exit"
 	case k.exited:
 		it.Blk = "dead"
 	case k.held != nil:
@@ -974,7 +1023,9 @@ func (k *kase) perform(it *Item) {
 func (k *kase) finish() {
 	atomic.StoreInt32(&k.recording, 0)
 	atomic.StoreInt32(&k.passthrough, 1)
-	close(k.quit)
+	if !k.quitClosed {
+		close(k.quit)
+	}
 	if k.held != nil {
 		k.held.reply <- "ok"
 	}
@@ -1009,6 +1060,11 @@ type gen struct {
 	lastTime int64
 	pFail    int
 	deep     int
+	// waiting phase
+	waitSteps int  // scheduler steps spent while the rescan waits
+	waitMax   int  // after that many, the wait is brought to its end
+	notCur    bool // the chain source was made "not current" before Start
+	quits     int  // quit items left
 }
 
 func genPool(r *rand.Rand) []PoolTx {
@@ -1116,6 +1172,95 @@ func (g *gen) envItems(k *kase) []Item {
 	}
 }
 
+// waitUpdate is an Update call issued while the rescan waits: mostly items
+// nothing watches yet, sometimes with a rewind below the start height.
+func (g *gen) waitUpdate(k *kase) Item {
+	it := Item{Kind: "update"}
+	switch x := g.r.Intn(100); {
+	case x < 55:
+		it.Addrs = []int{1 + g.r.Intn(nAddr)}
+	case x < 85:
+		it.Inputs = []InRef{g.randRef(k)}
+	default:
+		it.Addrs = []int{1 + g.r.Intn(nAddr)}
+		it.Inputs = []InRef{g.randRef(k)}
+	}
+	if g.r.Intn(100) < 25 && k.toldH >= 1 {
+		it.Rewind = 1 + g.r.Int63n(k.toldH+1)
+	}
+	return it
+}
+
+// nextWait schedules the waiting phase (the rescan goroutine is in one of the
+// two waitForBlocks calls): chain events before BestBlock answers (a rollback
+// then puts the start height / the end block ahead of the tip), Update calls
+// in every position relative to the notifications of the wait, notifications,
+// and finally what ends the wait.
+func (g *gen) nextWait(k *kase) *Item {
+	g.waitSteps++
+	x := g.r.Intn(100)
+	canUpd := k.applicable("update") && g.updates > 0
+	closing := g.waitSteps > g.waitMax
+	if k.held != nil {
+		switch {
+		case x < 70 || closing:
+			return &Item{Kind: "reply", Res: "ok"}
+		case x < 80 && canUpd:
+			g.updates--
+			it := g.waitUpdate(k)
+			return &it
+		case x < 90 && len(k.chain) > 2 && k.held.kind == 1:
+			// the tip leaves the chain before BestBlock answers
+			return &Item{Kind: "rollback"}
+		default:
+			it := g.extendItem(k)
+			return &it
+		}
+	}
+	if !k.quiescent {
+		return nil
+	}
+	fl := k.fifoLen()
+	cur := k.IsCurrent()
+	if closing {
+		// end the wait: become current, then a block notification
+		switch {
+		case !cur:
+			return &Item{Kind: "current", Cur: true}
+		case fl > 0:
+			return &Item{Kind: "deliver"}
+		default:
+			it := g.extendItem(k)
+			return &it
+		}
+	}
+	switch {
+	case x < 30 && canUpd:
+		g.updates--
+		it := g.waitUpdate(k)
+		return &it
+	case x < 60 && fl > 0:
+		return &Item{Kind: "deliver"}
+	case x < 80:
+		it := g.extendItem(k)
+		return &it
+	case x < 88 && !cur:
+		return &Item{Kind: "current", Cur: true}
+	case x < 91 && cur:
+		return &Item{Kind: "current", Cur: false}
+	case x < 94 && len(k.chain) > 2:
+		return &Item{Kind: "rollback"}
+	case x < 96 && g.quits > 0 && k.applicable("quit"):
+		g.quits--
+		return &Item{Kind: "quit"}
+	case fl > 0:
+		return &Item{Kind: "deliver"}
+	default:
+		it := g.extendItem(k)
+		return &it
+	}
+}
+
 func (g *gen) next(k *kase, done int) *Item {
 	if k.exited || done >= g.max {
 		return nil
@@ -1127,9 +1272,16 @@ func (g *gen) next(k *kase, done int) *Item {
 			return &it
 		}
 	}
+	if k.inWait() {
+		return g.nextWait(k)
+	}
 	x := g.r.Intn(100)
 	canUpd := k.applicable("update") && g.updates > 0
 	catchup := k.mode == "catchup"
+	if g.quits > 0 && k.applicable("quit") && g.r.Intn(100) < 2 {
+		g.quits--
+		return &Item{Kind: "quit"}
+	}
 	switch {
 	case k.held != nil:
 		pReply, pUpd := 80, 5
@@ -1249,14 +1401,24 @@ func genCase(seed int64, id int, tier string) (*History, *gen) {
 		g.max = 90
 	}
 	switch x := r.Intn(100); {
-	case x < 25:
+	case x < 18:
 		g.profile, g.pFail = "plain", 0
-	case x < 55:
+	case x < 40:
 		g.profile, g.pFail = "faulty", 30
-	case x < 78:
+	case x < 58:
 		g.profile, g.pFail, g.updates = "updates", 12, 4
-	default:
+	case x < 72:
 		g.profile, g.pFail, g.deep = "catchup-reorg", 10, 2
+	default:
+		// the rescan starts while the chain source is not current (or
+		// loses its start / end block before BestBlock answers) and
+		// waits; updates arrive during the wait
+		g.profile, g.pFail, g.updates = "waiting", 4, 5
+		g.waitMax = 4 + r.Intn(14)
+		g.max += 16
+	}
+	if r.Intn(100) < 6 {
+		g.quits = 1
 	}
 	h := &History{ID: id, Profile: g.profile, Pool: genPool(r)}
 	return h, g
@@ -1272,11 +1434,33 @@ func (g *gen) preamble(k *kase) {
 	if r.Intn(100) < 65 {
 		st.Start = int64(r.Intn(2))
 	}
+	if g.profile == "waiting" {
+		// start near the tip: a rollback before BestBlock answers puts
+		// the start height ahead of the best block
+		if r.Intn(100) < 45 {
+			st.Start = int64(n - r.Intn(2))
+		}
+		if r.Intn(100) < 80 {
+			g.notCur = true
+			g.plan = append(g.plan, Item{Kind: "current", Cur: false})
+		}
+	} else if r.Intn(100) < 10 {
+		g.notCur = true
+		g.waitMax = 2 + r.Intn(6)
+		g.plan = append(g.plan, Item{Kind: "current", Cur: false})
+	}
 	if r.Intn(100) < 30 {
 		st.StartT = g.plan[r.Intn(n)].Time
 	}
 	if r.Intn(100) < 8 {
 		st.End = st.Start + 1 + int64(r.Intn(n))
+	}
+	if g.profile == "waiting" && r.Intn(100) < 25 {
+		// an end block at or near the tip: the wait may end by reaching it
+		st.End = int64(n - r.Intn(2))
+		if st.End <= st.Start {
+			st.End = st.Start + 1
+		}
 	}
 	na := []int{0, 1, 1, 1, 2, 2, 3}[r.Intn(7)]
 	for _, a := range r.Perm(nAddr)[:na] {
@@ -1287,6 +1471,17 @@ func (g *gen) preamble(k *kase) {
 	}
 	if g.profile == "plain" && r.Intn(2) == 0 {
 		st.Addrs, st.Inputs = nil, nil
+	}
+	if g.profile == "waiting" && r.Intn(100) < 60 {
+		// nothing or little watched at Start: what the updates of the
+		// wait add decides what is delivered
+		st.Inputs = nil
+		if len(st.Addrs) > 1 {
+			st.Addrs = st.Addrs[:1]
+		}
+		if r.Intn(2) == 0 {
+			st.Addrs = nil
+		}
 	}
 	g.plan = append(g.plan, st)
 }
@@ -1418,6 +1613,13 @@ func caseTerm(h *History) (string, string) {
 			ev, s = "TN", "d"
 		case "retry":
 			ev, s = "TR", "t"
+		case "current":
+			ev, s = "EC "+c.Bool(it.Cur), "c"
+			if it.Cur {
+				s = "C"
+			}
+		case "quit":
+			ev, s = "EQ", "q"
 		}
 		var cbs []string
 		for _, cb := range it.Cbs {
@@ -1442,6 +1644,8 @@ func caseTerm(h *History) (string, string) {
 			blk = "BDone"
 		case "dead":
 			blk = "BDead"
+		case "exit":
+			blk = "BExit"
 		default:
 			blk = fmt.Sprintf("(BCall %d %s)", it.BK, c.Z(it.BA))
 		}
@@ -1552,6 +1756,15 @@ func main() {
 			}
 			if it.Recv {
 				rep.Histogram["update-received"]++
+				if it.InWait {
+					rep.Histogram["update-received-while-waiting"]++
+				}
+			}
+			if it.InWait && it.Kind == "deliver" {
+				rep.Histogram["wait:notification-not-ending-the-wait"]++
+			}
+			if it.InWait && it.Blk == "select" && it.Kind == "reply" {
+				rep.Histogram["wait:entered"]++
 			}
 		}
 		rep.Histogram["profile:"+h.Profile]++
